@@ -3,6 +3,7 @@ package exec
 import (
 	"fmt"
 	"math/big"
+	"reflect"
 	"time"
 
 	"gosym/smt"
@@ -15,29 +16,46 @@ type Decision struct {
 	S      string // concretization: the chosen value (decimal)
 }
 
+// PendingPath is an unexplored alternative: the decision prefix that leads to it
+// and, when known, a model of its path condition (nondet variable name -> value).
+type PendingPath struct {
+	Prefix []Decision
+	Model  map[string]*big.Int
+}
+
 // Ctx is the per-path exploration context (decision replay).
 type Ctx struct {
-	St       *smt.Store
-	Solver   *smt.Solver
-	prefix   []Decision // decisions to replay
-	Trace    []Decision // decisions taken on this path
-	levels   []int      // solver level after each decision of Trace
-	Pending  *[][]Decision
-	Vars     []*smt.Term // nondet variables created on this path (in order)
-	Log      []NondetRec // nondet calls in program order (for replay)
-	Lits     []*smt.Term // literals of the path condition, in order
-	SolverBin string
-	fpMemo   map[*smt.Term]bool
-	nvar     int
-	prevKeep int // number of leading decisions whose solver state is kept from the previous path
-	prevLevels []int
-	Queries  int
-	decided  map[*smt.Term]bool
-	Concretized int
-	FeasMs   int
-	ObligMs  int
+	St                                              *smt.Store
+	Solver                                          *smt.Solver
+	prefix                                          []Decision // decisions to replay
+	Trace                                           []Decision // decisions taken on this path
+	levels                                          []int      // solver level after each decision of Trace
+	Pending                                         *[]PendingPath
+	Vars                                            []*smt.Term // nondet variables created on this path (in order)
+	Log                                             []NondetRec // nondet calls in program order (for replay)
+	Lits                                            []*smt.Term // literals of the path condition, in order
+	SolverBin                                       string
+	fpMemo                                          map[*smt.Term]bool
+	nvar                                            int
+	prevKeep                                        int // number of leading decisions whose solver state is kept from the previous path
+	prevLevels                                      []int
+	Queries                                         int
+	decided                                         map[*smt.Term]bool
+	Concretized                                     int
+	FeasMs                                          int
+	ObligMs                                         int
 	FreshChecks, FreshSat, FreshUnsat, FreshUnknown int
-	FreshTime time.Duration
+	FreshTime                                       time.Duration
+	// model of the current path condition (all Lits), by variable name; nil if unknown.
+	// While the recorded prefix is being replayed it is the model stored with the
+	// pending path (valid for the whole prefix).
+	model     map[string]*big.Int
+	evalMemo  map[*smt.Term]*smt.Term
+	subst     map[*smt.Term]*smt.Term
+	substMemo map[*smt.Term]*smt.Term
+	ModelHits int // decisions settled by evaluating the model instead of a solver query
+	NoModel   bool
+	NoSimp    bool
 }
 
 // NondetRec is one harness-level nondet call: either a symbolic variable or a choice.
@@ -81,16 +99,93 @@ func (c *Ctx) assertDecision(lit *smt.Term) {
 	c.Solver.Assert(lit)
 }
 
+// ---- model-guided evaluation ----
+
+func (c *Ctx) setModel(m map[string]*big.Int) {
+	c.model = m
+	c.evalMemo = nil
+}
+
+func (c *Ctx) lookupVar(t *smt.Term) *smt.Term {
+	v, ok := c.model[t.Name]
+	if !ok {
+		return nil
+	}
+	switch t.Sort.K {
+	case smt.KBool:
+		return c.St.BoolConst(v.Sign() != 0)
+	case smt.KFP:
+		return c.St.FPConstBits(v.Uint64())
+	}
+	if t.Sort.W == smt.WideW && c.Solver.IntMode && v.BitLen() > 64 {
+		// unbounded integer in the Int rendering: the 192-bit evaluator could wrap where
+		// the solver's integers do not; treat the value as unknown
+		return t
+	}
+	return c.St.BVConst(v, t.Sort.W)
+}
+
+// evalModel: the value of t under the current model, or nil when there is no model or
+// the value cannot be computed by folding.
+func (c *Ctx) evalModel(t *smt.Term) *smt.Term {
+	if c.model == nil || c.NoModel {
+		return nil
+	}
+	if c.evalMemo == nil {
+		c.evalMemo = map[*smt.Term]*smt.Term{}
+	}
+	r := c.St.Eval(t, c.lookupVar, c.evalMemo)
+	if r != nil && !r.IsConst() {
+		return nil
+	}
+	return r
+}
+
+// learn records what an asserted literal implies syntactically (variable = constant),
+// so that later conditions fold without a solver query.
+func (c *Ctx) learn(lit *smt.Term) {
+	if v, k := c.St.SolveEq(lit); v != nil {
+		if c.subst == nil {
+			c.subst = map[*smt.Term]*smt.Term{}
+		}
+		if _, have := c.subst[v]; !have {
+			c.subst[v] = k
+			c.substMemo = nil
+		}
+	}
+}
+
+// Simplify rewrites t under the equalities learned on this path.
+func (c *Ctx) Simplify(t *smt.Term) *smt.Term {
+	if len(c.subst) == 0 || t.IsConst() || c.NoSimp {
+		return t
+	}
+	if c.substMemo == nil {
+		c.substMemo = map[*smt.Term]*smt.Term{}
+	}
+	return c.St.Subst(t, c.subst, c.substMemo)
+}
+
+func (c *Ctx) recordDecided(cond *smt.Term, v bool) {
+	if c.decided == nil {
+		c.decided = map[*smt.Term]bool{}
+	}
+	c.decided[cond] = v
+}
+
+func (c *Ctx) queue(alt Decision, m map[string]*big.Int) {
+	p := append(append([]Decision{}, c.Trace...), alt)
+	*c.Pending = append(*c.Pending, PendingPath{Prefix: p, Model: m})
+}
+
 // Branch decides a symbolic condition.
 func (c *Ctx) Branch(cond *smt.Term) bool {
+	cond = c.Simplify(cond)
 	if cond.IsTrue() {
 		return true
 	}
 	if cond.IsFalse() {
 		return false
-	}
-	if c.decided == nil {
-		c.decided = map[*smt.Term]bool{}
 	}
 	if v, ok := c.decided[cond]; ok {
 		return v
@@ -100,73 +195,180 @@ func (c *Ctx) Branch(cond *smt.Term) bool {
 			return !v
 		}
 	}
-	defer func() {
-		if len(c.Lits) > 0 {
-			l := c.Lits[len(c.Lits)-1]
-			if l == cond {
-				c.decided[cond] = true
-			} else if l.Op == smt.OpNot && l.Args[0] == cond || cond.Op == smt.OpNot && cond.Args[0] == l {
-				c.decided[cond] = false
-			}
-		}
-	}()
 	i := len(c.Trace)
 	if i < len(c.prefix) {
 		d := c.prefix[i]
 		c.Trace = append(c.Trace, d)
-		if d.Val == 1 {
-			c.Lits = append(c.Lits, cond)
-		} else {
-			c.Lits = append(c.Lits, c.St.Not(cond))
+		c.recordDecided(cond, d.Val == 1)
+		lit := cond
+		if d.Val != 1 {
+			lit = c.St.Not(cond)
 		}
+		c.Lits = append(c.Lits, lit)
+		c.learn(lit)
 		if i < c.prevKeep {
 			c.levels = append(c.levels, c.prevLevels[i])
 			return d.Val == 1
 		}
 		if !d.Forced {
-			if d.Val == 1 {
-				c.assertDecision(cond)
-			} else {
-				c.assertDecision(c.St.Not(cond))
-			}
+			c.assertDecision(lit)
 		}
 		c.levels = append(c.levels, c.Solver.Level())
 		return d.Val == 1
 	}
-	c.Queries++
-	rt, err := c.Solver.CheckWith(cond, c.FeasMs)
-	if err != nil {
-		abortf("solver error: %v", err)
+	if c.model == nil {
+		c.refreshModel()
 	}
-	c.Queries++
-	rf, err := c.Solver.CheckWith(c.St.Not(cond), c.FeasMs)
+	ncond := c.St.Not(cond)
+	var rt, rf smt.Result
+	var mt, mf map[string]*big.Int
+	var err error
+	ev := c.evalModel(cond)
+	switch {
+	case ev != nil && ev.IsTrue():
+		c.ModelHits++
+		rt, mt = smt.Sat, c.model
+		c.Queries++
+		rf, mf, err = c.Solver.CheckWithModel(ncond, c.FeasMs, c.Vars)
+	case ev != nil && ev.IsFalse():
+		c.ModelHits++
+		rf, mf = smt.Sat, c.model
+		c.Queries++
+		rt, mt, err = c.Solver.CheckWithModel(cond, c.FeasMs, c.Vars)
+	default:
+		c.Queries++
+		rt, mt, err = c.Solver.CheckWithModel(cond, c.FeasMs, c.Vars)
+		if err == nil {
+			if rt == smt.Unsat {
+				// the path is feasible, so the other side must be
+				rf = smt.Sat
+			} else {
+				c.Queries++
+				rf, mf, err = c.Solver.CheckWithModel(ncond, c.FeasMs, c.Vars)
+			}
+		}
+	}
 	if err != nil {
 		abortf("solver error: %v", err)
 	}
 	tOK, fOK := rt != smt.Unsat, rf != smt.Unsat
 	switch {
 	case tOK && fOK:
-		alt := append(append([]Decision{}, c.Trace...), Decision{Val: 0, N: 2})
-		*c.Pending = append(*c.Pending, alt)
+		c.queue(Decision{Val: 0, N: 2}, mf)
 		c.Trace = append(c.Trace, Decision{Val: 1, N: 2})
 		c.Lits = append(c.Lits, cond)
+		c.learn(cond)
+		c.recordDecided(cond, true)
 		c.assertDecision(cond)
 		c.levels = append(c.levels, c.Solver.Level())
+		c.setModelIfChanged(mt)
 		return true
 	case tOK:
 		c.Lits = append(c.Lits, cond)
+		c.learn(cond)
+		c.recordDecided(cond, true)
 		c.Trace = append(c.Trace, Decision{Val: 1, N: 2, Forced: true})
 		c.levels = append(c.levels, c.Solver.Level())
+		c.setModelIfChanged(mt)
 		return true
 	case fOK:
-		c.Lits = append(c.Lits, c.St.Not(cond))
+		c.Lits = append(c.Lits, ncond)
+		c.learn(ncond)
+		c.recordDecided(cond, false)
 		c.Trace = append(c.Trace, Decision{Val: 0, N: 2, Forced: true})
 		c.levels = append(c.levels, c.Solver.Level())
+		c.setModelIfChanged(mf)
 		return false
 	default:
 		abortf("infeasible path (both sides unsat)")
 		return false
 	}
+}
+
+// setModelIfChanged installs m as the model of the (extended) path condition; a nil m
+// (unknown answer, or sat without values) drops the model.
+func (c *Ctx) setModelIfChanged(m map[string]*big.Int) {
+	if m == nil {
+		c.setModel(nil)
+		return
+	}
+	if sameMap(m, c.model) {
+		return
+	}
+	c.setModel(m)
+}
+
+func sameMap(a, b map[string]*big.Int) bool {
+	return a != nil && b != nil && reflect.ValueOf(a).Pointer() == reflect.ValueOf(b).Pointer()
+}
+
+// refreshModel obtains a model of the current path condition (one solver query).
+func (c *Ctx) refreshModel() {
+	if c.NoModel || len(c.Vars) == 0 {
+		return
+	}
+	c.Queries++
+	r, err := c.Solver.Check(c.FeasMs)
+	if err != nil {
+		abortf("solver error: %v", err)
+	}
+	if r == smt.Unsat {
+		abortf("infeasible path (path condition unsat)")
+	}
+	if r == smt.Sat {
+		if m, err := c.Solver.Values(c.Vars); err == nil && m != nil {
+			c.setModel(m)
+		}
+	}
+}
+
+// Assume adds cond to the path condition without exploring its negation; returns
+// false when cond is infeasible on this path.
+func (c *Ctx) Assume(cond *smt.Term) bool {
+	cond = c.Simplify(cond)
+	if cond.IsTrue() {
+		return true
+	}
+	if cond.IsFalse() {
+		return false
+	}
+	i := len(c.Trace)
+	if i < len(c.prefix) {
+		d := c.prefix[i]
+		c.Trace = append(c.Trace, d)
+		c.Lits = append(c.Lits, cond)
+		c.learn(cond)
+		if i < c.prevKeep {
+			c.levels = append(c.levels, c.prevLevels[i])
+			return true
+		}
+		c.assertDecision(cond)
+		c.levels = append(c.levels, c.Solver.Level())
+		return true
+	}
+	if ev := c.evalModel(cond); ev != nil && ev.IsTrue() {
+		c.ModelHits++
+	} else {
+		c.Queries++
+		r, m, err := c.Solver.CheckWithModel(cond, c.FeasMs, c.Vars)
+		if err != nil {
+			abortf("solver error: %v", err)
+		}
+		if r == smt.Unsat {
+			return false
+		}
+		if r == smt.Sat && m != nil {
+			c.setModel(m)
+		} else {
+			c.setModel(nil)
+		}
+	}
+	c.Trace = append(c.Trace, Decision{Val: 1, N: 1})
+	c.Lits = append(c.Lits, cond)
+	c.learn(cond)
+	c.assertDecision(cond)
+	c.levels = append(c.levels, c.Solver.Level())
+	return true
 }
 
 // Concretize fixes a symbolic term to one model value on this path (KLEE-style):
@@ -185,6 +387,7 @@ func (c *Ctx) Concretize(t *smt.Term) *smt.Term {
 		c.Trace = append(c.Trace, d)
 		k := c.constOf(t, val)
 		c.Lits = append(c.Lits, c.St.Eq(t, k))
+		c.learn(c.St.Eq(t, k))
 		if i < c.prevKeep {
 			c.levels = append(c.levels, c.prevLevels[i])
 			return k
@@ -193,20 +396,27 @@ func (c *Ctx) Concretize(t *smt.Term) *smt.Term {
 		c.levels = append(c.levels, c.Solver.Level())
 		return k
 	}
-	c.Queries++
-	r, err := c.Solver.Check(c.ObligMs)
-	if err != nil || r != smt.Sat {
-		abortf("unsupported: cannot concretize a symbolic value (path condition %v)", r)
-	}
-	m, err := c.Solver.Values([]*smt.Term{t})
-	if err != nil {
-		abortf("solver error: %v", err)
-	}
-	for _, v := range m {
-		val = v
-	}
-	if val == nil {
-		abortf("unsupported: no model value for concretization")
+	if ev := c.evalModel(t); ev != nil {
+		c.ModelHits++
+		val = ev.Val
+	} else {
+		c.Queries++
+		r, err := c.Solver.Check(c.ObligMs)
+		if err != nil || r != smt.Sat {
+			abortf("unsupported: cannot concretize a symbolic value (path condition %v)", r)
+		}
+		m, err := c.Solver.Values(append([]*smt.Term{t}, c.Vars...))
+		if err != nil {
+			abortf("solver error: %v", err)
+		}
+		val = m[fmt.Sprintf("t%d", t.ID)]
+		if t.Op == smt.OpVar {
+			val = m[t.Name]
+		}
+		if val == nil {
+			abortf("unsupported: no model value for concretization")
+		}
+		c.setModel(m)
 	}
 	if t.Sort.K == smt.KBV && val.Sign() < 0 {
 		val = new(big.Int).And(val, new(big.Int).Sub(new(big.Int).Lsh(big.NewInt(1), uint(t.Sort.W)), big.NewInt(1)))
@@ -214,6 +424,7 @@ func (c *Ctx) Concretize(t *smt.Term) *smt.Term {
 	k := c.constOf(t, val)
 	c.Trace = append(c.Trace, Decision{Val: 1, N: 1, Forced: false, S: val.String()})
 	c.Lits = append(c.Lits, c.St.Eq(t, k))
+	c.learn(c.St.Eq(t, k))
 	c.assertDecision(c.St.Eq(t, k))
 	c.levels = append(c.levels, c.Solver.Level())
 	return k
@@ -227,43 +438,6 @@ func (c *Ctx) constOf(t *smt.Term, val *big.Int) *smt.Term {
 		return c.St.FPConstBits(val.Uint64())
 	}
 	return c.St.BVConst(val, t.Sort.W)
-}
-
-// Assume adds cond to the path condition without exploring its negation; returns
-// false when cond is infeasible on this path.
-func (c *Ctx) Assume(cond *smt.Term) bool {
-	if cond.IsTrue() {
-		return true
-	}
-	if cond.IsFalse() {
-		return false
-	}
-	i := len(c.Trace)
-	if i < len(c.prefix) {
-		d := c.prefix[i]
-		c.Trace = append(c.Trace, d)
-		c.Lits = append(c.Lits, cond)
-		if i < c.prevKeep {
-			c.levels = append(c.levels, c.prevLevels[i])
-			return true
-		}
-		c.assertDecision(cond)
-		c.levels = append(c.levels, c.Solver.Level())
-		return true
-	}
-	c.Queries++
-	r, err := c.Solver.CheckWith(cond, c.FeasMs)
-	if err != nil {
-		abortf("solver error: %v", err)
-	}
-	if r == smt.Unsat {
-		return false
-	}
-	c.Trace = append(c.Trace, Decision{Val: 1, N: 1})
-	c.Lits = append(c.Lits, cond)
-	c.assertDecision(cond)
-	c.levels = append(c.levels, c.Solver.Level())
-	return true
 }
 
 // Choose is an n-way nondeterministic choice (no solver involved).
@@ -283,8 +457,7 @@ func (c *Ctx) Choose(n int) int {
 		return d.Val
 	}
 	for k := n - 1; k >= 1; k-- {
-		alt := append(append([]Decision{}, c.Trace...), Decision{Val: k, N: n})
-		*c.Pending = append(*c.Pending, alt)
+		c.queue(Decision{Val: k, N: n}, c.model)
 	}
 	c.Trace = append(c.Trace, Decision{Val: 0, N: n})
 	c.levels = append(c.levels, c.Solver.Level())
@@ -304,7 +477,6 @@ func (c *Ctx) ConcretizeIndex(idx *smt.Term, n int) int {
 	return n - 1
 }
 
-// Prove asks whether cond holds on the current path: returns (holds, model-if-not).
 func (c *Ctx) hasFP(t *smt.Term) bool {
 	if c.fpMemo == nil {
 		c.fpMemo = map[*smt.Term]bool{}
@@ -352,9 +524,25 @@ func (c *Ctx) proveFresh(cond *smt.Term) (smt.Result, map[string]*big.Int) {
 	return r, m
 }
 
+// Prove asks whether cond holds on the current path: Unsat = it holds for every
+// value; Sat = the returned model violates it.
 func (c *Ctx) Prove(cond *smt.Term) (smt.Result, map[string]*big.Int) {
+	cond = c.Simplify(cond)
 	if cond.IsTrue() {
 		return smt.Unsat, nil
+	}
+	if ev := c.evalModel(cond); ev != nil && ev.IsFalse() && !cond.IsFalse() {
+		// the model of the path condition already violates the assertion
+		c.ModelHits++
+		m := map[string]*big.Int{}
+		for _, v := range c.Vars {
+			if x, ok := c.model[v.Name]; ok {
+				m[v.Name] = x
+			} else {
+				m[v.Name] = new(big.Int)
+			}
+		}
+		return smt.Sat, m
 	}
 	if c.SolverBin != "" && c.hasFP(cond) {
 		c.Queries++
@@ -379,6 +567,17 @@ func (c *Ctx) Prove(cond *smt.Term) (smt.Result, map[string]*big.Int) {
 
 // Model returns a model of the current path condition.
 func (c *Ctx) Model() map[string]*big.Int {
+	if c.model != nil && !c.NoModel {
+		m := map[string]*big.Int{}
+		for _, v := range c.Vars {
+			if x, ok := c.model[v.Name]; ok {
+				m[v.Name] = x
+			} else {
+				m[v.Name] = new(big.Int)
+			}
+		}
+		return m
+	}
 	r, err := c.Solver.Check(c.ObligMs)
 	if err != nil || r != smt.Sat {
 		return nil
@@ -387,8 +586,8 @@ func (c *Ctx) Model() map[string]*big.Int {
 	return m
 }
 
-func NewCtx(st *smt.Store, solver *smt.Solver, prefix []Decision, keep int, prevLevels []int, pending *[][]Decision) *Ctx {
-	return &Ctx{St: st, Solver: solver, prefix: prefix, prevKeep: keep, prevLevels: prevLevels, Pending: pending}
+func NewCtx(st *smt.Store, solver *smt.Solver, p PendingPath, keep int, prevLevels []int, pending *[]PendingPath) *Ctx {
+	return &Ctx{St: st, Solver: solver, prefix: p.Prefix, prevKeep: keep, prevLevels: prevLevels, Pending: pending, model: p.Model}
 }
 
 func (c *Ctx) Levels() []int { return c.levels }
